@@ -97,6 +97,55 @@ pub mod gen {
     fn arg_rel(segs: Vec<Segment>) -> FnArg { FnArg::Test(Box::new(rel(segs))) }
     fn arg_s(s: &str) -> FnArg { FnArg::Literal(Literal::String(s.to_string())) }
 
+    // ---- C14: extension functions (in / nin / none_of / any_of / subset_of) ----
+    pub const EXT_NAMES: [&str; 6] = ["in", "nin", "none_of", "any_of", "subset_of", "foo"];
+    pub fn ext_docs() -> Vec<Value> {
+        vec![
+            json!({"elems": [1, "a", null, [1], {"a": 1}, [1, 2], [], 2.5, true, "b", [[1]]], "list": [1, "a", [1], null]}),
+            json!({"elems": [[1, 2], [2, 3], [], [1], [4], ["a"], [[1]], 1, [1, [1]], [null], [2, 2]], "list": [1, 2, [1]]}),
+            json!([{"a": 1, "b": [1, 2]}, {"a": 3, "b": [1, 2]}, {"a": [1], "b": [[1], 2]}, {"a": [], "b": []}, {"a": [1, 2], "b": [2, 1, 0]}, {"b": [1]}, {"a": 1},
+                   {"a": 1, "b": 1}, {"a": [1, 1], "b": [1]}, {"a": [1, 3], "b": [1]}, {"a": [], "b": 7}, {"a": {"k": 1}, "b": [{"k": 1}]}, {"a": "x", "b": ["x", "y"]}, {"a": null, "b": [null]}]),
+            json!({"list": [], "elems": [1, [], [1]]}),
+            json!({"list": 3, "elems": [1, [1], 3]}),
+            json!({"list": {"a": 1}, "elems": [1, [1], {"a": 1}]}),
+            json!({"elems": {"x": 1, "y": [1], "z": "a"}, "list": [1, "a"]}),
+            json!([1, 2]), json!(null), json!({"elems": [1]}),
+        ]
+    }
+    /// filters whose atom is one extension-function call with VALUE arguments (literals, singular queries, logical expressions), plain and negated
+    pub fn ext_filters() -> Vec<Filter> {
+        let abs = |n: &str| FnArg::Test(Box::new(Test::AbsQuery(JpQuery::new(vec![name(n)]))));
+        let arglists: Vec<Vec<FnArg>> = vec![
+            vec![arg_rel(vec![]), abs("list")],                         // f(@, $.list)
+            vec![arg_rel(vec![name("a")]), arg_rel(vec![name("b")])],   // f(@.a, @.b)
+            vec![arg_rel(vec![name("b")]), arg_rel(vec![name("a")])],   // f(@.b, @.a)
+            vec![arg_rel(vec![]), abs("missing")],                      // second argument missing
+            vec![arg_rel(vec![name("zz")]), abs("list")],               // first argument missing
+            vec![arg_rel(vec![name("zz")]), abs("missing")],            // both missing
+            vec![arg_rel(vec![])],                                      // one argument
+            vec![],                                                     // none
+            vec![arg_rel(vec![]), abs("list"), abs("list")],            // three
+            vec![FnArg::Literal(Literal::Int(1)), abs("list")],         // f(1, $.list)
+            vec![arg_s("a"), abs("list")],                              // f('a', $.list)
+            vec![FnArg::Literal(Literal::Null), abs("list")],           // f(null, $.list)
+            vec![arg_rel(vec![]), arg_s("a")],                          // second argument a string
+            vec![abs("list"), arg_rel(vec![])],                         // f($.list, @)
+            vec![abs("list"), abs("list")],                             // f($.list, $.list)
+            vec![arg_rel(vec![Segment::Selector(Selector::Index(0))]), abs("list")],   // f(@[0], $.list)
+            vec![arg_rel(vec![]), arg_rel(vec![])],                     // f(@, @)
+            vec![FnArg::Filter(Filter::Atom(FilterAtom::Comparison(Box::new(Comparison::Eq(cur(vec![]), lit_i(1)))))), abs("list")],   // f(@ == 1, $.list)
+        ];
+        let mut out = vec![];
+        for n in EXT_NAMES {
+            for a in &arglists {
+                let tf = Test::Function(Box::new(TestFunction::Custom(n.to_string(), a.clone())));
+                out.push(t(tf.clone()));
+                out.push(nt(tf));
+            }
+        }
+        out
+    }
+
     pub fn atoms() -> Vec<Filter> {
         use Comparison::*;
         vec![
